@@ -9,7 +9,8 @@ BASE = {'addr_bits': 16, 'origin': 0, 'page_size': 4, 'pre_zones_op': 'ZonesA', 
 
 def instances(tier):
     if tier == 'quick':
-        yield 'len4', dict(BASE, max_len=4), 'AlphaC04', None
+        yield 'core-len4', dict(BASE, max_len=4), 'AlphaC04core', None
+        yield 'len3', dict(BASE, max_len=3), 'AlphaC04', None
         yield 'sim8', dict(BASE, max_len=8), 'AlphaC04', 'num=2000'
     else:
         yield 'len5', dict(BASE, max_len=5), 'AlphaC04', None
